@@ -1042,6 +1042,32 @@ func (x *Exec) runGhostSets(s *State, c *Contract, env *Env) {
 				}
 			}()
 			cur := env.withHeap(s.heap, s.ghost, s.alloc)
+			if strings.HasPrefix(gs.Field, "$") {
+				sort, ok := x.ghostVars[gs.Field]
+				if !ok {
+					x.unsup("ghostset: unknown ghost variable %s (%s)", gs.Field, gs.Where)
+				}
+				s.G(gs.Field)
+				var val Term
+				if gs.Var == "" {
+					val = cur.rv(cur.eval(gs.Val))
+				} else {
+					gt, ks := w.resolveType(cur.pkg, gs.VarT)
+					x.counter++
+					iv := Term{q(fmt.Sprintf("%s!g%d", gs.Var, x.counter)), ks}
+					ne := cur.child()
+					ne.quantified = true
+					ne.vars[gs.Var] = SVal{t: iv, gt: gt}
+					body := ne.rv(ne.eval(gs.Val))
+					val = s.fresh("ghostmap", sort)
+					s.assume(Term{fmt.Sprintf("(forall ((%s %s)) (! (= (select %s %s) %s) :pattern ((select %s %s)) :qid ghostmap))", iv.S, sortText(ks), val.S, iv.S, body.S, val.S, iv.S), "Bool"})
+				}
+				if val.Sort != sort {
+					x.unsup("ghostset: value of sort %s assigned to ghost variable of sort %s (%s)", val.Sort, sort, gs.Where)
+				}
+				s.ghost[gs.Field] = s.define(gs.Field, val)
+				return
+			}
 			ov := cur.eval(gs.Obj)
 			base := cur.rv(ov)
 			if ov.gt == nil {
